@@ -164,11 +164,11 @@ def mstep_perm(kind, K, N=3, D=2, ctype='full', wca=(-1,), cov_norm='eigenvalue'
                     make, call, ensures, patches=patches, definedness=False, crosscheck=False, timeout=30.0, native_n=3)
 
 
-def fits_bounded_instance():
+def fits_bounded_instance(tied_only=False):
     from pb_bss.distribution import CACGMMTrainer, CWMMTrainer, GMMTrainer, VMFMMTrainer, GCACGMMTrainer, VMFCACGMMTrainer, CBMMTrainer
 
     def make(B):
-        return {'which': B.choose('which', ['cacgmm', 'cacgmm-mask', 'cwmm', 'gmm-full', 'gmm-diagonal', 'gmm-spherical', 'vmfmm', 'gcacgmm', 'vmfcacgmm', 'cbmm', 'cbmm-tied', 'gcacgmm-ipa', 'vmfcacgmm-ipa', 'gcacgmm-ipa', 'vmfcacgmm-ipa']),
+        return {'which': B.choose('which', ['cbmm-tied']) if tied_only else B.choose('which', ['cacgmm', 'cacgmm-mask', 'cwmm', 'gmm-full', 'gmm-diagonal', 'gmm-spherical', 'vmfmm', 'gcacgmm', 'vmfcacgmm', 'cbmm', 'cbmm-tied', 'gcacgmm-ipa', 'vmfcacgmm-ipa', 'gcacgmm-ipa', 'vmfcacgmm-ipa']),
                 'K': B.choose('K', [2, 3, 3, 4]), 'it': B.choose('it', [1, 2, 5, 20]), 'wca': B.choose('wca', [(-1,), (-3,), (-3, -1)]),
                 'seed': B.choose('seed', list(range(3000))), 'd': B.given('d', np.zeros(1))}
 
@@ -183,11 +183,14 @@ def fits_bounded_instance():
         if which == 'cbmm':
             F, N, it = 1, (40 if tied else 10), 1
         y = rng.normal(size=(F, N, D)) + (1j * rng.normal(size=(F, N, D)) if cplx else 0)
+        if tied:
+            # concentrated directions: the Bingham parameters (about -1/lambda) are sensitive to the scatter spectrum
+            y = (rng.normal(size=(F, 1, D)) + 1j * rng.normal(size=(F, 1, D))) + 0.15 * y
         emb = rng.normal(size=(F, N, 4))
         init = np.moveaxis(rng.dirichlet(np.ones(K), size=(F, N)), -1, -2).copy()
         if tied and K >= 2:
             # two classes with almost the same soft assignment: their scatter spectra agree to about 1e-5 without being equal
-            init[:, 1] = init[:, 0] * (1 + 1e-5 * rng.normal(size=init[:, 0].shape))
+            init[:, 1] = init[:, 0] * (1 + 10.0 ** rng.uniform(-6, -3) * rng.normal(size=init[:, 0].shape))
             init /= init.sum(-2, keepdims=True)
         perm = rng.permutation(K)
         mask = rng.rand(F, K, N) < 0.9
@@ -219,12 +222,16 @@ def fits_bounded_instance():
             return m.predict(y)
         base = run(init, mask)
         per = run(init[:, perm], mask[:, perm])
-        return {'base': base, 'perm': per, 'p': perm}
+        return {'base': base, 'perm': per, 'p': perm, 'tied': tied}
 
     def ensures(sp, inp, out):
-        yield 'posterior-of-permuted-start-is-permuted-posterior', bool(np.allclose(out['perm'], np.asarray(out['base'])[:, out['p']], rtol=1e-5, atol=1e-7))
+        # nearly tied classes: every class is computed by the same vectorised arithmetic, so relabelling is exact up to a few ulp
+        # (2e-16 over 1500 scenes on the pinned tree); a class-order dependent shortcut shows as 1e-7 .. 1e-4
+        tol = {'rtol': 0.0, 'atol': 1e-9} if out['tied'] else {'rtol': 1e-5, 'atol': 1e-7}
+        yield 'posterior-of-permuted-start-is-permuted-posterior', bool(np.allclose(out['perm'], np.asarray(out['base'])[:, out['p']], **tol))
 
-    return Instance('C05', DN + '*Trainer.fit', 'bounded-relabelled-fits', make, call, ensures, mode='bounded', bounded_n=80, frame=False,
+    return Instance('C05', DN + '*Trainer.fit', 'bounded-relabelled-fits-nearly-tied-classes' if tied_only else 'bounded-relabelled-fits', make, call, ensures,
+                    mode='bounded', bounded_n=60 if tied_only else 80, frame=False,
                     raises=(ValueError, np.linalg.LinAlgError))
 
 
@@ -257,4 +264,5 @@ def instances(tier):
         out.append(mstep_perm(kind, 2))
         out.append(mstep_perm(kind, 3))
     out.append(fits_bounded_instance())
+    out.append(fits_bounded_instance(tied_only=True))
     return out
